@@ -3208,7 +3208,12 @@ impl Zeroconf {
                 // Simultaneous Probe Tiebreaking (RFC 6762 section 8.2)
                 if qtype == RRType::ANY && msg.num_authorities() > 0 {
                     if let Some(probe) = dns_registry.probing.get_mut(q_name) {
+                        let next_send = probe.next_send;
                         probe.tiebreaking(&msg, q_name);
+                        if probe.next_send != next_send {
+                            // We lost and will probe again later: make sure to wake up for it.
+                            self.timers.push(Reverse(probe.next_send));
+                        }
                     }
                 }
 
